@@ -1,8 +1,328 @@
-import Isotp.Process
+import Isotp.Proofs.Compose
+import Isotp.Props.C01spec
+import Isotp.Props.C03
+import Isotp.Props.C02
 /-
-  C01 — property theorems (see DESIGN.md §6). Helper lemmas live in Isotp/Proofs.
+  C01 — "When two transport layers with mirrored addresses are joined by a reliable in-order CAN link …
+  every non-empty payload accepted by send() on one side is returned by recv() on the other side exactly once,
+  byte-for-byte identical and in the order it was sent, and neither side reports an error … every addressing
+  mode, every accepted combination of tx_data_length, tx_data_min_length, tx_padding, blocksize, stmin, every
+  payload length the receiver's max_frame_size admits, any number of queued messages."
+
+  End-to-end composition (safety part). Helper lemmas: Isotp/Proofs/Compose.lean. Builds on
+  * C01spec: `Spec.segment` of a valid transmit configuration is a `Spec.WellFormed` stream;
+  * C03 / Proofs.Rx: the receiver model reassembles every well-formed stream (from any state, with arbitrary
+    reception-neutral steps in between: the `Feeds` relation);
+  * C09: the address filter of the mirrored address accepts every frame the sender emits;
+  * C02: the sender model emits exactly `Spec.segment` (used by `e2e_sender`, `e2e_sender_receiver`).
+
+  Setting (`Compose.Link ca aa sb`; it is defined in Proofs/Compose.lean §G together with `Sendable`, `wire`,
+  `wireMsg`, `FromSender`): the sender has the validated configuration `ca` and address `aa` (able to
+  transmit); the receiving layer is in state `sb`, whose receive address is the mirror of the sender's
+  transmit address. Nothing is assumed about the receiver's own configuration (blocksize, stmin, padding …)
+  except that the payloads fit its `max_frame_size`; the sender's configuration is arbitrary but valid; all
+  seven addressing modes are covered (`Link.mirror` does not fix the mode).
+
+  Vocabulary: `tc = Spec.TxCfg.of ca aa`; `Spec.segment tc p` the data fields of the frames of `p`;
+  `Compose.stream enc ps` the frames of all the messages in order; `Feeds s frames s'` (Proofs/Rx.lean): the
+  frames are handed to `_process_rx` in order with arbitrary reception-neutral steps (transmit passes — this
+  is where the Flow Control frames go out —, `send`, `recv`, clock, un-expired timeout checks) before, between
+  and after; `Compose.linkFeed s ms`: the CAN messages `ms` go through the address filter and `_process_rx`;
+  `delivered s` / `rxTrace s`: payloads put into the rx queue / deliveries and reception errors, read from
+  the event log.
+
+  Not covered here (liveness): that the sender does get the Flow Control frames in time and therefore does
+  emit all the frames (C04/C05/C07 are about that side); `e2e_sender` says what the emitted frames are.
 -/
 namespace Isotp.C01
-open Isotp State
+open Isotp Isotp.State Isotp.Rx Isotp.Compose
+
+/-! ## 1. every frame passes the receiver's address filter -/
+
+/-- Every CAN message that carries a frame of the segmentation of `p` with the sender's identifier (for either
+    target address type) is accepted by the receiver's `is_for_me`, in all seven addressing modes; and the
+    receiver strips exactly the prefix the sender prepends. -/
+theorem e2e_accepted (ca : Cfg) (aa : Addr) (sb : State) (h : Link ca aa sb) (p : Bytes) (m : CanMsg) (t : Tat)
+    (hid : m.id = aa.tx.txId t) (hext : m.ext = aa.tx.mode.is29)
+    (hd : m.data ∈ Spec.segment (Spec.TxCfg.of ca aa) p) :
+    sb.addr.rx.isForMe m = true ∧ (Spec.TxCfg.of ca aa).pre.length = sb.addr.rx.rxPrefixSize := by
+  rw [h.mirror]
+  exact ⟨accepted ca aa t p m h.addrA hid hext hd, (mirror_rxPrefixSize aa.tx).symm⟩
+
+theorem e2e_accepted_wire (ca : Cfg) (aa : Addr) (sb : State) (h : Link ca aa sb) (p : Bytes) :
+    ∀ m ∈ wire ca aa p, sb.addr.rx.isForMe m = true := by
+  intro m hm
+  simp only [wire, List.mem_map] at hm
+  obtain ⟨d, hd, rfl⟩ := hm
+  exact (e2e_accepted ca aa sb h p _ .physical rfl rfl hd).1
+
+/-! ## 2. one message -/
+
+/-- The frames of one payload, handed to the receiver from ANY state with arbitrary reception-neutral steps in
+    between, deliver exactly that payload, once; the receiver is idle afterwards; if it was idle before, the
+    delivery is the only reception event (no reception error). -/
+theorem e2e_one_message (ca : Cfg) (aa : Addr) (sb sb' : State) (h : Link ca aa sb) (p : Bytes)
+    (hs : Sendable sb [p]) (hf : Feeds sb (Spec.segment (Spec.TxCfg.of ca aa) p) sb') :
+    delivered sb' = delivered sb ++ [p] ∧ sb'.rxState = .idle ∧
+      (sb.rxState = .idle → rxTrace sb' = rxTrace sb ++ [.deliver p]) := by
+  have ha := h.admissible [p] hs
+  exact C03.stream_delivers_interleaved sb sb' _ p _ (ha.hwf p (by simp)) ha.hpre (ha.hmax p (by simp)) hf
+
+/-- … and nothing is delivered before the last frame. -/
+theorem e2e_one_message_nothing_earlier (ca : Cfg) (aa : Addr) (sb sb'' : State) (h : Link ca aa sb) (p : Bytes)
+    (hs : Sendable sb [p]) (fs rest : List Bytes) (hsplit : Spec.segment (Spec.TxCfg.of ca aa) p = fs ++ rest)
+    (hne : rest ≠ []) (hf : Feeds sb fs sb'') : delivered sb'' = delivered sb := by
+  have ha := h.admissible [p] hs
+  exact C03.nothing_earlier_interleaved sb sb'' _ p _ fs rest (ha.hwf p (by simp)) ha.hpre (ha.hmax p (by simp))
+    hsplit hne hf
+
+/-- The same through the address filter, nothing in between, in terms of the rx queue: after the frames of `p`
+    (any dlc/fd/brs, either target address type) `recv()` finds exactly `p` appended. -/
+theorem e2e_one_message_wire (ca : Cfg) (aa : Addr) (sb : State) (h : Link ca aa sb) (p : Bytes)
+    (hs : Sendable sb [p]) (hidle : sb.rxState = .idle) (ms : List CanMsg) (hfrom : FromSender aa ms)
+    (hdata : ms.map (·.data) = Spec.segment (Spec.TxCfg.of ca aa) p) :
+    (linkFeed sb ms).rxQueue = sb.rxQueue ++ [p] ∧ (linkFeed sb ms).rxState = .idle ∧
+      rxTrace (linkFeed sb ms) = rxTrace sb ++ [.deliver p] := by
+  have ha := h.admissible [p] hs
+  rw [linkFeed_stream ca aa sb h [p] ms hfrom (by
+    intro m hm
+    have : m.data ∈ ms.map (·.data) := List.mem_map_of_mem hm
+    rw [hdata] at this
+    simpa using this)]
+  exact C03.stream_delivers sb ms _ p (by rw [hdata]; exact ha.hwf p (by simp)) ha.hpre (ha.hmax p (by simp)) hidle
+
+/-! ## 3. any number of queued messages -/
+
+/-- C01, safety core. The frames of the payloads `ps`, in sending order, handed to an idle receiver with arbitrary
+    reception-neutral steps in between: the reception events are exactly one delivery per payload, byte-identical
+    and in sending order — nothing lost, duplicated, reordered, and no reception error —, and the receiver is
+    idle again. -/
+theorem e2e_messages (ca : Cfg) (aa : Addr) (sb sb' : State) (h : Link ca aa sb) (ps : List Bytes)
+    (hs : Sendable sb ps) (hidle : sb.rxState = .idle)
+    (hf : Feeds sb (stream (Spec.segment (Spec.TxCfg.of ca aa)) ps) sb') :
+    rxTrace sb' = rxTrace sb ++ ps.map RxEv.deliver ∧ delivered sb' = delivered sb ++ ps ∧ sb'.rxState = .idle := by
+  obtain ⟨h1, h2⟩ := messages_idle _ _ ps sb sb' (h.admissible ps hs) hidle hf
+  exact ⟨h1, by rw [delivered_of_trace sb sb' _ h1, delivered_map_deliver], h2⟩
+
+/-- From ANY receiver state (e.g. a reception left open by an earlier fault): still every payload is delivered
+    exactly once and in order. -/
+theorem e2e_messages_any_state (ca : Cfg) (aa : Addr) (sb sb' : State) (h : Link ca aa sb) (ps : List Bytes)
+    (hs : Sendable sb ps) (hf : Feeds sb (stream (Spec.segment (Spec.TxCfg.of ca aa)) ps) sb') :
+    delivered sb' = delivered sb ++ ps ∧ (ps ≠ [] → sb'.rxState = .idle) := by
+  obtain ⟨h1, h2, _⟩ := messages_any _ _ ps sb sb' (h.admissible ps hs) hf
+  exact ⟨h1, h2⟩
+
+/-- Prefix version: after the first `k` frames of the stream, exactly the payloads whose frames are completely
+    contained in these `k` frames have been delivered (`Compose.completeIn`), in order: nothing is delivered
+    early, reordered or twice. -/
+theorem e2e_messages_prefix (ca : Cfg) (aa : Addr) (sb sb'' : State) (h : Link ca aa sb) (ps : List Bytes)
+    (hs : Sendable sb ps) (k : Nat)
+    (hf : Feeds sb ((stream (Spec.segment (Spec.TxCfg.of ca aa)) ps).take k) sb'') :
+    delivered sb'' = delivered sb ++ completeIn (Spec.segment (Spec.TxCfg.of ca aa)) ps k :=
+  messages_prefix _ _ ps k sb sb'' (h.admissible ps hs) hf
+
+/-- Through the address filter, nothing in between, in terms of the rx queue: after all the frames the queue is
+    the old one followed by `ps`; no reception error; receiver idle. `ms` are any CAN messages of the sender
+    (any dlc/fd/brs) whose data fields are the segmentations of `ps` in order. -/
+theorem e2e_messages_wire (ca : Cfg) (aa : Addr) (sb : State) (h : Link ca aa sb) (ps : List Bytes)
+    (hs : Sendable sb ps) (hidle : sb.rxState = .idle) (ms : List CanMsg) (hfrom : FromSender aa ms)
+    (hdata : ms.map (·.data) = stream (Spec.segment (Spec.TxCfg.of ca aa)) ps) :
+    (linkFeed sb ms).rxQueue = sb.rxQueue ++ ps ∧ (linkFeed sb ms).rxState = .idle ∧
+      rxTrace (linkFeed sb ms) = rxTrace sb ++ ps.map RxEv.deliver := by
+  rw [linkFeed_stream ca aa sb h ps ms hfrom (by
+    intro m hm
+    have : m.data ∈ ms.map (·.data) := List.mem_map_of_mem hm
+    rwa [hdata] at this)]
+  have hf := feeds_feed ms sb
+  rw [hdata] at hf
+  obtain ⟨h1, h2, h3⟩ := e2e_messages ca aa sb _ h ps hs hidle hf
+  exact ⟨feed_queue_of_delivered sb ms ps h2, h3, h1⟩
+
+/-- … and after the first `k` messages of `ms` the queue holds exactly the completely received payloads. -/
+theorem e2e_messages_wire_prefix (ca : Cfg) (aa : Addr) (sb : State) (h : Link ca aa sb) (ps : List Bytes)
+    (hs : Sendable sb ps) (ms : List CanMsg) (hfrom : FromSender aa ms)
+    (hdata : ms.map (·.data) = stream (Spec.segment (Spec.TxCfg.of ca aa)) ps) (k : Nat) :
+    (linkFeed sb (ms.take k)).rxQueue = sb.rxQueue ++ completeIn (Spec.segment (Spec.TxCfg.of ca aa)) ps k := by
+  rw [linkFeed_stream ca aa sb h ps (ms.take k) (fun m hm => hfrom m (List.mem_of_mem_take hm)) (by
+    intro m hm
+    have : m.data ∈ ms.map (·.data) := List.mem_map_of_mem (List.mem_of_mem_take hm)
+    rwa [hdata] at this)]
+  have hf := feeds_feed (ms.take k) sb
+  rw [List.map_take, hdata] at hf
+  exact feed_queue_of_delivered sb _ _ (e2e_messages_prefix ca aa sb _ h ps hs k hf)
+
+/-- the concrete frames `wire`: instance of the two theorems above -/
+theorem e2e_messages_wire_concrete (ca : Cfg) (aa : Addr) (sb : State) (h : Link ca aa sb) (ps : List Bytes)
+    (hs : Sendable sb ps) (hidle : sb.rxState = .idle) :
+    (linkFeed sb (ps.map (wire ca aa)).flatten).rxQueue = sb.rxQueue ++ ps ∧
+    (linkFeed sb (ps.map (wire ca aa)).flatten).rxState = .idle ∧
+    rxTrace (linkFeed sb (ps.map (wire ca aa)).flatten) = rxTrace sb ++ ps.map RxEv.deliver ∧
+    ∀ k, (linkFeed sb ((ps.map (wire ca aa)).flatten.take k)).rxQueue =
+      sb.rxQueue ++ completeIn (Spec.segment (Spec.TxCfg.of ca aa)) ps k := by
+  obtain ⟨h1, h2, h3⟩ := e2e_messages_wire ca aa sb h ps hs hidle _ (wire_fromSender ca aa ps) (wire_data ca aa ps)
+  exact ⟨h1, h2, h3, e2e_messages_wire_prefix ca aa sb h ps hs _ (wire_fromSender ca aa ps) (wire_data ca aa ps)⟩
+
+/-! ## 4. `recv()` -/
+
+/-- Then `recv()` called `|ps|` times returns exactly the payloads, in sending order, and `None` afterwards
+    (queue empty before the transfer). -/
+theorem e2e_recv (ca : Cfg) (aa : Addr) (sb : State) (h : Link ca aa sb) (ps : List Bytes)
+    (hs : Sendable sb ps) (hidle : sb.rxState = .idle) (hq : sb.rxQueue = []) (ms : List CanMsg)
+    (hfrom : FromSender aa ms) (hdata : ms.map (·.data) = stream (Spec.segment (Spec.TxCfg.of ca aa)) ps) :
+    (recvN ps.length (linkFeed sb ms)).1 = ps.map some ∧
+    (recvN ps.length (linkFeed sb ms)).2.recv.2 = none := by
+  obtain ⟨h1, _, _⟩ := e2e_messages_wire ca aa sb h ps hs hidle ms hfrom hdata
+  rw [hq, List.nil_append] at h1
+  obtain ⟨h2, h3⟩ := recvN_queue ps _ h1
+  exact ⟨h2, by simp [recv, h3]⟩
+
+/-! ## 5. the sender model's output is the receiver model's input -/
+
+/-- Connection to the sender model (C02): from the moment the request for `p` is at the head of the transmit
+    queue, for every sequence of API calls (`steps`), the data frames the sender hands to the CAN layer are
+    messages of the sender whose data fields are — while the transfer is in flight — a prefix of
+    `Spec.segment tc p`, and — when the request completes with success — exactly `Spec.segment tc p` in order,
+    i.e. `wire p` up to dlc/fd/brs; otherwise the transfer failed (`complete(False)`: Flow Control overflow /
+    timeout / too many wait frames). -/
+theorem e2e_sender (s0 : State) (r0 : Req) (p : Bytes) (hv : s0.cfg.valid = true) (hfr : Proofs.Fresh r0 p)
+    (h1 : 1 ≤ p.length) (hn : p.length < 4294967296) (steps : List Proofs.Step)
+    (hl : Proofs.Live s0 s0) (hq : Proofs.TxQueued s0 r0) :
+    (FromSender s0.addr (Proofs.run steps s0).2 ∧
+      (Proofs.run steps s0).2.map (·.data) =
+        (Spec.segment (Spec.TxCfg.of s0.cfg s0.addr) p).take (Proofs.run steps s0).2.length) ∨
+    (∃ pre post last, steps = pre ++ Proofs.Step.tx :: post ∧
+      (Proofs.run pre s0).1.processTx.2.1 = some last ∧
+      Proofs.Finished (Proofs.run pre s0).1 (Proofs.run pre s0).1.processTx.1 r0 ∧
+      FromSender s0.addr ((Proofs.run pre s0).2 ++ [last]) ∧
+      ((Proofs.run pre s0).2 ++ [last]).map (·.data) = Spec.segment (Spec.TxCfg.of s0.cfg s0.addr) p) ∨
+    (∃ pre post, steps = pre ++ Proofs.Step.tx :: post ∧
+      Proofs.Failed (Proofs.run pre s0).1 (Proofs.run pre s0).1.processTx.1 r0) := by
+  have hdata : ∀ l : List Bytes, (l.map (Proofs.msgFor s0 r0 p)).map (·.data) = l := by
+    intro l; simp [List.map_map, Function.comp_def, Proofs.msgFor, Proofs.frameMsg]
+  have hfrom : ∀ l : List Bytes, FromSender s0.addr (l.map (Proofs.msgFor s0 r0 p)) := by
+    intro l m hm
+    obtain ⟨d, _, rfl⟩ := List.mem_map.mp hm
+    exact ⟨⟨_, rfl⟩, rfl⟩
+  rcases C02.frames_are_segmentation s0 r0 p hv hfr h1 hn steps s0 0 hl (Or.inl ⟨rfl, hq⟩) with
+    ⟨_, _, hsent⟩ | ⟨pre, post, hsteps, _, _, _, _, ⟨d, hout, hall, hfin, _⟩ | hfail⟩
+  · left
+    unfold Proofs.Sent at hsent
+    rw [List.drop_zero] at hsent
+    constructor
+    · rw [hsent]; exact hfrom _
+    · conv => lhs; rw [hsent]
+      rw [hdata]; rfl
+  · right; left
+    rw [List.drop_zero] at hall
+    refine ⟨pre, post, _, hsteps, hout, hfin, ?_, ?_⟩
+    · rw [hall]; exact hfrom _
+    · rw [hall, hdata]; rfl
+  · right; right
+    exact ⟨pre, post, hsteps, hfail⟩
+
+/-- Sender model → link → receiver model, closed: for every run of the sender from the moment the request for `p` is
+    at the head of its queue, either the transfer is still in flight (a prefix of the frames is out), or it failed,
+    or the request completed with success and then the frames the sender emitted, put on the bus in that order,
+    make the mirrored receiver (idle before) deliver exactly `p` — `recv()` finds it appended to the queue — with
+    no reception error. -/
+theorem e2e_sender_receiver (s0 : State) (r0 : Req) (p : Bytes) (hv : s0.cfg.valid = true) (hfr : Proofs.Fresh r0 p)
+    (steps : List Proofs.Step) (hl : Proofs.Live s0 s0) (hq : Proofs.TxQueued s0 r0)
+    (sb : State) (h : Link s0.cfg s0.addr sb) (hs : Sendable sb [p]) (hidle : sb.rxState = .idle) :
+    ((Proofs.run steps s0).2.map (·.data) =
+        (Spec.segment (Spec.TxCfg.of s0.cfg s0.addr) p).take (Proofs.run steps s0).2.length) ∨
+    (∃ pre post last, steps = pre ++ Proofs.Step.tx :: post ∧
+      (Proofs.run pre s0).1.processTx.2.1 = some last ∧
+      Proofs.Finished (Proofs.run pre s0).1 (Proofs.run pre s0).1.processTx.1 r0 ∧
+      (linkFeed sb ((Proofs.run pre s0).2 ++ [last])).rxQueue = sb.rxQueue ++ [p] ∧
+      (linkFeed sb ((Proofs.run pre s0).2 ++ [last])).rxState = .idle ∧
+      rxTrace (linkFeed sb ((Proofs.run pre s0).2 ++ [last])) = rxTrace sb ++ [.deliver p]) ∨
+    (∃ pre post, steps = pre ++ Proofs.Step.tx :: post ∧
+      Proofs.Failed (Proofs.run pre s0).1 (Proofs.run pre s0).1.processTx.1 r0) := by
+  have hp := hs p (by simp)
+  rcases e2e_sender s0 r0 p hv hfr hp.1 hp.2.2 steps hl hq with ⟨_, hd⟩ | ⟨pre, post, last, h1, h2, h3, h4, h5⟩ | hf
+  · exact Or.inl hd
+  · exact Or.inr (Or.inl ⟨pre, post, last, h1, h2, h3, e2e_one_message_wire _ _ sb h p hs hidle _ h4 h5⟩)
+  · exact Or.inr (Or.inr hf)
+
+/-! ## Non-vacuity: concrete configurations -/
+
+/-- classic CAN, normal 11-bit addressing, default configuration on both sides (TX_DL 8, blocksize 8) -/
+def exTx : Half :=
+  { mode := .n11, txid := some 0x123, rxid := some 0x456, ta := none, sa := none, ae := none,
+    physId := 0, funcId := 0, rxOnly := false, txOnly := false }
+def exA : Addr := { tx := exTx, rx := exTx }
+def exB : Addr := { tx := Spec.mirror exTx, rx := Spec.mirror exTx }
+def exCa : Cfg := {}
+def sB : State := State.init {} exB
+/-- two queued messages: 20 bytes (First Frame + 2 Consecutive Frames) and 3 bytes (Single Frame) -/
+def exP1 : Bytes := (List.range 20).map UInt8.ofNat
+def exP2 : Bytes := [0xAA, 0xBB, 0xCC]
+
+example : Link exCa exA sB := ⟨by decide, by decide, rfl⟩
+example : Sendable sB [exP1, exP2] := by unfold Sendable; decide
+example : sB.rxState = .idle ∧ sB.rxQueue = [] := by decide
+example : (wire exCa exA exP1).map (·.data) =
+    [[0x10, 20, 0, 1, 2, 3, 4, 5], [0x21, 6, 7, 8, 9, 10, 11, 12], [0x22, 13, 14, 15, 16, 17, 18, 19]] := by decide
+example : wire exCa exA exP2 = [{ id := 0x123, ext := false, data := [3, 0xAA, 0xBB, 0xCC] }] := by decide
+example : ∀ m ∈ wire exCa exA exP1, sB.addr.rx.isForMe m = true := by decide
+example : (linkFeed sB ([exP1, exP2].map (wire exCa exA)).flatten).rxQueue = [exP1, exP2] := by decide
+example : (linkFeed sB ([exP1, exP2].map (wire exCa exA)).flatten).log = [.deliver exP2, .deliver exP1] := by decide
+-- after 2 of the 4 frames nothing is delivered yet; after 3, the first message only
+example : completeIn (Spec.segment (Spec.TxCfg.of exCa exA)) [exP1, exP2] 2 = [] ∧
+    completeIn (Spec.segment (Spec.TxCfg.of exCa exA)) [exP1, exP2] 3 = [exP1] ∧
+    completeIn (Spec.segment (Spec.TxCfg.of exCa exA)) [exP1, exP2] 4 = [exP1, exP2] := by decide
+example : (linkFeed sB (([exP1, exP2].map (wire exCa exA)).flatten.take 3)).rxQueue = [exP1] := by decide
+example : (recvN 2 (linkFeed sB ([exP1, exP2].map (wire exCa exA)).flatten)).1 = [some exP1, some exP2] ∧
+    (recvN 2 (linkFeed sB ([exP1, exP2].map (wire exCa exA)).flatten)).2.recv.2 = none := by decide
+example : Feeds sB (stream (Spec.segment (Spec.TxCfg.of exCa exA)) [exP1, exP2])
+    (feed sB ([exP1, exP2].map (wire exCa exA)).flatten) := by
+  have := feeds_feed ([exP1, exP2].map (wire exCa exA)).flatten sB
+  rwa [wire_data] at this
+
+/-- CAN FD sender (TX_DL 16, padding 0xAA, minimum length 12) with extended 11-bit addressing (one prefix byte);
+    receiver with blocksize 2, stmin 5 and its own, different, transmit parameters -/
+def exTxE : Half :=
+  { mode := .e11, txid := some 0x700, rxid := some 0x701, ta := some 0x55, sa := some 0x66, ae := none,
+    physId := 0, funcId := 0, rxOnly := false, txOnly := false }
+def exAE : Addr := { tx := exTxE, rx := exTxE }
+def exCaE : Cfg := { txDl := 16, txPadding := some 0xAA, txMinLen := some 12, canFd := true }
+def sBE : State :=
+  State.init { blocksize := 2, stmin := 5, txDl := 8, maxFrameSize := 100 } { tx := Spec.mirror exTxE, rx := Spec.mirror exTxE }
+def exP3 : Bytes := (List.range 30).map UInt8.ofNat
+def exP4 : Bytes := [1, 2, 3, 4, 5, 6, 7, 8, 9, 10]
+
+example : Link exCaE exAE sBE := ⟨by decide, by decide, rfl⟩
+example : Sendable sBE [exP3, exP4, exP2] := by unfold Sendable; decide
+example : (wire exCaE exAE exP4).map (·.data) = [[0x55, 0x00, 10, 1, 2, 3, 4, 5, 6, 7, 8, 9, 10, 0xAA, 0xAA, 0xAA]] := by
+  decide
+example : ((wire exCaE exAE exP3).map (·.data)).getLast? =
+    some [0x55, 0x22, 27, 28, 29, 0xAA, 0xAA, 0xAA, 0xAA, 0xAA, 0xAA, 0xAA] := by decide
+example : (linkFeed sBE ([exP3, exP4, exP2].map (wire exCaE exAE)).flatten).rxQueue = [exP3, exP4, exP2] := by decide
+-- a foreign frame (other identifier) on the same bus is ignored
+example : (linkFeed sBE [{ id := 0x123, ext := false, data := [0x55, 0x02, 1, 2] }]).rxQueue = [] := by decide
+
+/-- sender model → receiver model on the concrete transfer of C02 (First Frame, Flow Control from the peer, two
+    Consecutive Frames): the sender's output, fed to the mirrored receiver, delivers the payload -/
+def sBx : State := State.init {} { tx := Spec.mirror C02.exHalf, rx := Spec.mirror C02.exHalf }
+example : Link C02.exState.cfg C02.exState.addr sBx := ⟨by decide, by decide, rfl⟩
+example : Proofs.Live C02.exState C02.exState ∧ Proofs.TxQueued C02.exState C02.exReq :=
+  ⟨⟨rfl, rfl, rfl, (by intro h; cases h), Proofs.QLog.refl _⟩, rfl, rfl, [], rfl⟩
+example : (linkFeed sBx (Proofs.run [.tx, .op (.rx C02.exFc), .tx, .tx] C02.exState).2).rxQueue = [C02.exPayload] := by
+  decide
 
 end Isotp.C01
+
+#print axioms Isotp.C01.e2e_accepted
+#print axioms Isotp.C01.e2e_accepted_wire
+#print axioms Isotp.C01.e2e_one_message
+#print axioms Isotp.C01.e2e_one_message_nothing_earlier
+#print axioms Isotp.C01.e2e_one_message_wire
+#print axioms Isotp.C01.e2e_messages
+#print axioms Isotp.C01.e2e_messages_any_state
+#print axioms Isotp.C01.e2e_messages_prefix
+#print axioms Isotp.C01.e2e_messages_wire
+#print axioms Isotp.C01.e2e_messages_wire_prefix
+#print axioms Isotp.C01.e2e_messages_wire_concrete
+#print axioms Isotp.C01.e2e_recv
+#print axioms Isotp.C01.e2e_sender
+#print axioms Isotp.C01.e2e_sender_receiver
